@@ -739,6 +739,10 @@ class Interp:
         except KeyError:
             pass
         if e.id in BUILTINS:
+            stub = self.world.stubs.get("builtins." + e.id)
+            if stub is not None:
+                self.world.used_stubs.add("builtins." + e.id)
+                return ModelFn("builtins." + e.id, lambda it, *a, **k: stub(it, list(a), k))
             return BUILTINS[e.id]
         raise IRaise(NameError(f"name '{e.id}' is not defined"))
 
@@ -1334,6 +1338,10 @@ class Interp:
         if isinstance(f, BuiltinMethod):
             return call_builtin_method(self, f.obj, f.name, list(args), kwargs)
         if isinstance(f, ModelFn):
+            stub = self.world.stubs.get(f.name)
+            if stub is not None:
+                self.world.used_stubs.add(f.name)
+                return stub(self, list(args), kwargs)
             try:
                 return f.fn(self, *args, **kwargs)
             except sym.DivByZero:
